@@ -1,11 +1,12 @@
 import Yaql.Gen.Registry
+import Yaql.Gen.RegistryConv
 /-!
 C12 over the generated registry: every registered definition has a well-formed parameter
 table (so `C12.spelling_*` apply to the whole library) and its aliases follow the naming
 convention unless given explicitly.  Re-proved by the kernel against what the code says now.
 -/
 namespace Yaql.Props.C12Gen
-open Yaql.Registry Yaql.Gen.Registry
+open Yaql.Registry Yaql.Gen.Registry Yaql.Naming Yaql.Gen.RegistryConv
 
 /-- every registered definition satisfies `WFDef` -/
 theorem registry_wf : registry.all (fun d => wfDef (d.params.map RParam.toParam)) = true := by
@@ -31,6 +32,52 @@ theorem registry_kinds :
     registry.any (fun d => d.params.any (fun p => p.hidden && p.position.isSome)) = true ∧
     registry.any (fun d => d.params.any (·.explicitAlias)) = true ∧
     registry.any (fun d => d.params.any (fun p => !p.explicitAlias && p.alias != some p.name)) = true := by
+  decide +kernel
+
+/-! ### every naming convention
+
+`convRows`: the same definitions as found in contexts with `CamelCaseConvention`, with `PythonConvention` and
+without a convention, created in several orders (camel first, python first, none first, re-created) in
+fresh interpreters. -/
+
+/-- in a context of EACH convention every definition is registered under the name, and every parameter is
+    passed under the alias, that this convention gives to what the source text declares - whatever was
+    registered before in the same interpreter -/
+theorem alias_convention_each : convRows.all rowOk = true := by
+  decide +kernel
+
+/-- the names arguments are passed by are keywords under each convention, so `call(name, args, kwargs)`
+    does not filter them out (`C12.call_keywords_pass`) -/
+theorem keyword_names_are_keywords :
+    convRows.all (fun r => r.params.all fun p =>
+      p.hidden || p.star || isKeyword (keywordName r.conv p.declAlias p.name)) = true := by
+  decide +kernel
+
+/-- converting an already converted name again changes nothing, for every name the library promises
+    (function names and keyword names, under the convention of their context) -/
+theorem registered_names_converted :
+    convRows.all (fun r =>
+      (match convertFunctionName r.regName r.conv with
+       | .ok n => r.regAs.isSome || n == r.regName
+       | .error _ => false) &&
+      r.params.all fun p =>
+        p.declAlias.isSome || r.conv.isNone ||
+          convertParameterName (keywordName r.conv p.declAlias p.name) r.conv == keywordName r.conv p.declAlias p.name) = true := by
+  decide +kernel
+
+/-- the table has contexts of all three kinds, and the conventions really differ on it -/
+theorem conv_rows_kinds :
+    convRows.length > 600 ∧
+    convRows.any (fun r => r.conv == some .camel && r.params.any fun p => p.seenAlias != some p.name && p.declAlias.isNone) = true ∧
+    convRows.any (fun r => r.conv == some .python && r.params.any fun p =>
+      p.seenAlias == some p.name && toCamel p.name != p.name) = true ∧
+    convRows.any (fun r => r.conv == some .python && r.params.any fun p =>
+      p.seenAlias != some p.name && p.seenAlias.isSome && p.declAlias.isNone) = true ∧
+    convRows.any (fun r => r.conv == none && r.params.any fun p => p.seenAlias.isNone) = true ∧
+    convRows.any (fun r => r.conv == none && r.params.any fun p => p.seenAlias.isSome) = true ∧
+    convRows.any (fun r => r.regAs.isSome) = true ∧
+    convRows.any (fun r => r.declName.isNone && r.regAs.isNone && r.conv == some .camel && toCamel r.pyName != r.pyName) = true ∧
+    convRows.any (fun r => r.declName.isNone && r.regAs.isNone && r.conv == some .python && toCamel r.regName != r.regName) = true := by
   decide +kernel
 
 end Yaql.Props.C12Gen
